@@ -2184,7 +2184,9 @@ func (r *Run) lookup(st *State, fr *Frame, x *ssa.Lookup) *Val {
 	}
 	ks := layoutTE(mt.Key(), te)
 	if len(ks) != 1 {
-		r.unsup("map with composite key %s", mt.Key())
+		// a struct key: one abstract key per tuple of components (an uninterpreted function; without an
+		// injectivity axiom distinct keys MAY share a slot in a model, which only makes fewer things provable)
+		kv, ks = compositeKey(kv, mt.Key(), te)
 	}
 	if isIface := isIfaceType(te.apply(x.Index.Type())); !isIface && ks[0].Sort == SAny {
 		kv = &Val{T: mt.Key(), L: []*Term{boxAny(kv, te)}}
@@ -2212,7 +2214,7 @@ func (r *Run) mapUpdate(st *State, fr *Frame, x *ssa.MapUpdate) {
 	mt := types.Unalias(te.apply(x.Map.Type())).Underlying().(*types.Map)
 	ks := layoutTE(mt.Key(), te)
 	if len(ks) != 1 {
-		r.unsup("map with composite key %s", mt.Key())
+		kv, ks = compositeKey(kv, mt.Key(), te)
 	}
 	r.safety(st, fr, "safe.nilmap", x.Pos(), Neq(mv.L[0], IntLit(0)))
 	mname := "map:" + typeName(te.apply(x.Map.Type()))
@@ -2328,4 +2330,11 @@ func bitopArith(op token.Token, a, b *Term) *Term {
 		}
 	}
 	return nil
+}
+
+// compositeKey folds the components of a struct-typed map key into one abstract key of sort Int.
+func compositeKey(kv *Val, kt types.Type, te TypeEnv) (*Val, []Leaf) {
+	name := "mapkey!" + typeName(te.apply(kt))
+	k := UF(name, SInt, kv.L...)
+	return &Val{T: kt, L: []*Term{k}}, []Leaf{{Sort: SInt, T: types.Typ[types.Int]}}
 }
